@@ -44,6 +44,10 @@ fn main() {
             std::env::set_var("TU_HARNESS_TMP", dir);
             props::tok::set_tmp(dir);
             let mut c = Ctx::new(dir, seed, thorough, scale, shard, nshards, exec_for(prop));
+            // where the property pins the answer as a function of the request (or demands determinism in the seed), an
+            // earlier request is executed again every 25 requests and must get the same answer; not where the property
+            // leaves a choice open (scripts, matchings, window lengths, ties) or where requests observe timing
+            c.again_every = if ["C01", "C02", "C03", "C04", "C06", "C08", "C10", "C11", "C13", "C14", "C17"].contains(&prop) { 25 } else { 0 };
             // a panic of the implementation while the GENERATOR is driving it (outside a recorded request) must not be
             // lost: it is recorded and reported by the orchestrator (exit code 4)
             let res = std::panic::catch_unwind(std::panic::AssertUnwindSafe(|| match prop {
